@@ -10,7 +10,9 @@ up to `tol`:
 rbm_modes      ndim transpose tol coo[] B0[] B[]          -> precondition | nmodes close
 rbm_degenerate ndim transpose coo[] B0[]                  -> precondition | nonfinite | finite
 rbm_ptent      ndim tol naggr id[] coo[] B[] P Bc[]       -> close shape repro ortho
+rbm_nsparams   cols B[]                                   -> precondition | cols B[]
 ```
+`rbm_nsparams`: the property-tree constructor of `nullspace_params` copies `rows * cols` values from the pointer `B`.
 `B0` is what the caller's vector holds on entry (`B.resize` keeps it).  `rbm_degenerate`: `nonfinite` iff some
 divisor `s` of the normalisation is zero while the column has rows (`0/0` in `double`).  `rbm_ptent`: `B` close to the
 model's rigid body modes of `coo` (row-major), and the V-grade predicates of `Model/CoarseningChecks.lean` on the
@@ -61,6 +63,15 @@ def handle (op : String) (args : List String) : Option String :=
                     showBool (Coarsening.reproducesB tol cols id P Bc B), showBool (Coarsening.orthonormalCols tol P)]
           else badInput
         | _ => badInput
+  | "rbm_nsparams" => withArgs (do
+        let cols ← pNat; let B ← pVec; pEnd
+        pure (cols, B)) args
+      fun (cols, B) =>
+        -- tentative_prolongation.hpp:77-106: `B` set needs `cols > 0` and `rows > 0`; `B` not set needs `cols == 0`
+        if B.size == 0 then (if cols == 0 then joinSp [toString cols, showVec B] else "precondition")
+        else if cols == 0 then "precondition"
+        else if B.size % cols != 0 then badInput
+        else joinSp [toString cols, showVec B]
   | _ => none
 
 end Amgcl.Driver.RigidBodyModes
